@@ -257,7 +257,8 @@ class CopyFamily(Family):
         base = rows(once.operations, once.composite_operations)
         world.clear_memo()
         c3 = build(prog, rep=2).circ
-        first_ids = set(map(id, c3.operations))
+        first_ops = list(c3.operations)      # kept alive: id() of a collected operation can be reused by a new one
+        first_ids = set(map(id, first_ops))
         un = c3.apply_modifiers()
         allops = un.operations
         has_zero = any(e[0] == 'sub' and e[1] == 0 for e in prog)   # a block with count 0 is emptied by design
